@@ -15,7 +15,7 @@ from mc.kernel import Space
 
 PROPERTY = "C01"
 RULE = (
-    "shapes: every labelled tree LT(n), n <= 6, x 5 id offsets (+ every LT(7) x offsets {0,1} in thorough), each written "
+    "shapes: every labelled tree LT(n), n <= 6, x 5 id offsets (+ every LT(7) at the default offset 1 in thorough), each written "
     "with Tree.to_swc() / Tree.to_swc(fname) and read back through 5 source kinds (StringIO, BytesIO, path written by the "
     "library, path written by the harness, text-mode file handle) with Tree.from_swc, plus read_swc (default and "
     "reset_index=False) on the text; values: a 2-node tree whose x,y,z,r take every combination (thorough: full 4-fold "
@@ -605,8 +605,7 @@ def spaces(tier, seed):
                     yield [list(p), off]
         if not quick:
             for p in S.labelled_trees(7):  # ST(7) is a subset
-                for off in (0, 1):
-                    yield [list(p), off]
+                yield [list(p), 1]
 
     def gen_values():
         nv = len(V)
@@ -710,7 +709,7 @@ def spaces(tier, seed):
 def _base_spaces(quick, lt_hi, depth, gen_shapes, gen_values, gen_types, gen_comments, gen_history, gen_big):
     return [
         Space.of("shapes", gen_shapes, check_shape,
-                 bounds={"LT_max_nodes": lt_hi, "id_offsets": list(OFFSETS), "LT7_id_offsets": None if quick else [0, 1], "source_kinds": list(KINDS),
+                 bounds={"LT_max_nodes": lt_hi, "id_offsets": list(OFFSETS), "LT7_id_offsets": None if quick else [1], "source_kinds": list(KINDS),
                          "table_reads": ["read_swc", "read_swc(reset_index=False)"]}),
         Space.of("values", gen_values, check_values,
                  bounds={"alphabet": V, "columns": list(COLS), "combination": "every triple of columns, the fourth 0.5" if quick else "full product 17^4"}),
